@@ -98,6 +98,7 @@ type SpecDB struct {
 	UFs       map[string][]string // name -> arg sorts..., result sort
 	GhostPreds map[string]string  // name -> key sort
 	GhostVars  map[string]bool
+	Disjoint   [][2]string // pairs of uninterpreted functions with disjoint ranges
 }
 
 func NewSpecDB() *SpecDB {
@@ -332,6 +333,13 @@ func (db *SpecDB) LoadSpecFile(path, pkgPath string) {
 			} else {
 				fail("iface needs: name kind")
 			}
+		case word == "disjoint":
+			fs := strings.Fields(rest)
+			if len(fs) != 2 {
+				fail("disjoint needs two function names")
+				continue
+			}
+			db.Disjoint = append(db.Disjoint, [2]string{fs[0], fs[1]})
 		case word == "ghostvar":
 			db.GhostVars[strings.TrimSpace(rest)] = true
 		case word == "ghost":
@@ -1039,6 +1047,30 @@ func (e *Env) call(n *ast.CallExpr) Value {
 			return e.fail("sameobj needs two pointers")
 		}
 		return BoolC(a.Obj != nil && a.Obj == b.Obj)
+	case "cachehas", "cacheget":
+		o := objOf(e.eval(n.Args[0]))
+		k, ok := e.ex.argTerm(e.st, e.evalBytesArg(n.Args[1]))
+		if o == nil || !ok || k.Sort != SB {
+			return e.fail("%s needs (cache, key)", id.Name)
+		}
+		hk, vk := fmt.Sprintf("bc:%d:has", o.ID), fmt.Sprintf("bc:%d:val", o.ID)
+		pick := func(key, sort, hint string) *Term {
+			cur := e.ex.ghostArr(e.st, key, sort, hint)
+			if e.inOld {
+				if e.oldGhost != nil {
+					if v, ok := e.oldGhost[key]; ok {
+						return v.(*Term)
+					}
+				} else if v, ok := e.st.PreGhost[key]; ok {
+					return v.(*Term)
+				}
+			}
+			return cur
+		}
+		if id.Name == "cachehas" {
+			return Select(pick(hk, ArrSort(SB, SBool), "bc_has"), k)
+		}
+		return Select(pick(vk, ArrSort(SB, SB), "bc_val"), k)
 	case "present", "edge", "dbhas", "dbget", "vertexid":
 		o := objOf(e.eval(n.Args[0]))
 		if o == nil {
